@@ -18,6 +18,11 @@ def load_known():
         return json.load(f)["findings"]
 
 
+def _subterms(t):
+    from . import terms
+    return terms.subterms(t)
+
+
 class Result:
     __slots__ = ("rule", "key", "status", "where", "fact", "clause", "soft")
 
@@ -68,9 +73,13 @@ class Ctx:
         and ends with exit 2 unless a violation is found"""
         self.results.append(Result(rule, key, "undecided", where, fact, self._clause))
 
-    def check(self, cond, rule, key, where, fact_ok="", fact_bad=""):
+    def check(self, cond, rule, key, where, fact_ok="", fact_bad="", value=None):
         if cond:
             self.ok(rule, key, where, fact_ok)
+        elif value is not None and any(x[0] in ("lc", "loopres", "undef", "last", "mut") for x in _subterms(value)):
+            # the value that failed to match could not be normalised by the evaluator (a container filled in a way it does not
+            # summarise): its difference from the expected form proves nothing
+            self.undecided(rule, key, where, (fact_bad or fact_ok) + " [the value is not in normal form: cannot decide]")
         else:
             # a failed match: reportable as a violation only while the function still has the structure the matcher was written
             # for (core.restructured); a wrong construct that the checker identifies positively is filed with ctx.violation instead
